@@ -3,7 +3,7 @@
    A source edit that removes a closed-bit test, adds a function that takes
    the output lock or touches the encoder, or reorders Serve's shutdown makes
    one of these lemmas fail. *)
-From XV Require Import lib.Bytes gen.SessClose C10.Model.
+From XV Require Import lib.Bytes gen.SessClose gen.Serve C10.Model.
 
 (* exactly these take the output lock: each is an actor kind of the model
    (Close: KClose; Encode: KEncode/KEncodeNF; EncodeElement; TokenWriter:
@@ -69,3 +69,13 @@ Proof. vm_compute. reflexivity. Qed.
 Lemma tbl_setdeadline : sc_setclosedeadline_fresh_context = true /\
   sc_setclosedeadline_cancels_previous = true /\ sc_setclosedeadline_zero_is_no_deadline = true.
 Proof. vm_compute. repeat split; reflexivity. Qed.
+
+(* Serve's loop (session.go; the first fact is read by the translator section
+   Serve, shared with C08): the peer's close is recognised by comparing the
+   error of handleInputStream with io.EOF itself — an error that merely wraps
+   io.EOF (a handler's, say) goes to sendError like any other, which is what
+   OExit EHandler CHandler says —; and the input context in force is read
+   afresh at every turn of the loop (OServeTop), not once before it: a context
+   replaced by SetCloseDeadline while Serve runs is never looked at again *)
+Lemma tbl_serve_loop : sv_serve_eof_identity = true /\ sc_serve_reads_context_every_turn = true.
+Proof. vm_compute. split; reflexivity. Qed.
